@@ -132,10 +132,40 @@ macro_rules! var3_harness {
 var3_harness!(mono_var3_alg_usize, mono_var3_lex_usize, mono_var3_grlex_usize, usize, V3u, 0);
 var3_harness!(mono_var3_alg_isize, mono_var3_lex_isize, mono_var3_grlex_isize, isize, V3i, -LIM);
 
+// ------------------------------------------------------------------ MultiDeg<isize> (sparse exponent vectors)
+// (witness search / replay for the Verus unit `mdeg`; BTreeMap-based: native only)
+pub fn mono_mdeg(s: &mut Src) -> R {
+    use yui::poly::MultiDeg;
+    use num_traits::Zero;
+    const N: usize = 4;
+    let mut va = [0i64; N]; let mut vb = [0i64; N]; let mut vc = [0i64; N];
+    for i in 0..N { va[i] = s.small(-2, 2); vb[i] = s.small(-2, 2); vc[i] = s.small(-2, 2); }
+    reach!();
+    let mk = |v: &[i64; N]| MultiDeg::<isize>::from_iter(v.iter().enumerate().map(|(i, &e)| (i, e as isize)));
+    let same = |d: &MultiDeg<isize>, v: &[i64; N]| (0..N + 2).all(|i| d[i] as i64 == if i < N { v[i] } else { 0 })
+        && d.ninds() == v.iter().filter(|e| **e != 0).count() && d.iter().all(|(_, e)| *e != 0) && d.is_zero() == v.iter().all(|e| *e == 0);
+    let (a, b, c) = (mk(&va), mk(&vb), mk(&vc));
+    ob!(same(&a, &va) && same(&b, &vb), "MultiDeg::from_iter::stores-no-zero-exponent");
+    let mut vs = [0i64; N]; let mut vd = [0i64; N]; let mut vac = [0i64; N]; let mut vbc = [0i64; N];
+    for i in 0..N { vs[i] = va[i] + vb[i]; vd[i] = va[i] - vb[i]; vac[i] = va[i] + vc[i]; vbc[i] = vb[i] + vc[i]; }
+    let mut t = a.clone(); t += &b;
+    ob!(same(&t, &vs), "MultiDeg::add_assign::exponentwise-sum-no-zero-stored");
+    let mut t = a.clone(); t -= &b;
+    ob!(same(&t, &vd), "MultiDeg::sub_assign::exponentwise-difference-no-zero-stored");
+    ob!(a.total() as i64 == va.iter().sum::<i64>(), "MultiDeg::total-is-sum-of-exponents");
+    ob!(a.all_leq(&b) == (0..N).all(|i| va[i] <= vb[i]), "MultiDeg::all_leq-is-componentwise");
+    ob!(a.cmp_lex(&b) == va.cmp(&vb), "MultiDeg::cmp_lex-is-lexicographic");
+    ob!(a.cmp_grlex(&b) == va.iter().sum::<i64>().cmp(&vb.iter().sum::<i64>()).then(va.cmp(&vb)), "MultiDeg::cmp_grlex-is-graded-lexicographic");
+    let (ac, bc) = (mk(&vac), mk(&vbc));
+    ob!(a.cmp_lex(&b) == ac.cmp_lex(&bc) && a.cmp_grlex(&b) == ac.cmp_grlex(&bc), "MultiDeg::orders-compatible-with-multiplication");
+    Ok(())
+}
+
 crate::harness_table!(MONO:
     mono_var_usize, mono_var_isize,
     mono_var2_alg_usize, mono_var2_lex_usize, mono_var2_grlex_usize,
     mono_var2_alg_isize, mono_var2_lex_isize, mono_var2_grlex_isize,
     mono_var3_alg_usize, mono_var3_lex_usize, mono_var3_grlex_usize,
     mono_var3_alg_isize, mono_var3_lex_isize, mono_var3_grlex_isize,
+    mono_mdeg,
 );
